@@ -76,6 +76,38 @@ def resize_case(pt, sw, sh, dw, dh, alg="conv", flt="Lanczos3", m=2, alpha=True,
     return case
 
 
+DUMMY_ARGS = {"ps": 1, "alphaType": 0, "u8": 1, "sw": 1, "sh": 1, "dw": 1, "dh": 1, "box": [0, 0, 1, 1], "Q": 1,
+              "alg": "nearest", "m": 1, "useAlpha": 0, "sn": 1, "sd": 1}
+
+
+def img_case(op, dst_pt, dw, dh, src_pt=None, sw=None, sh=None, src_c=None, dst_c=None, src_lay=None, dst_lay=None,
+             api="dyn", cpu="none", threads=1, log=("dst",), chk=("ret_ok",), g=None, echo=None, sent=0xabcd,
+             mapper=None, direction=None):
+    """mul / div / mul_inplace / div_inplace / map / map_inplace / convert through the generic executor."""
+    case = {"op": op, "api": api, "cpu": cpu, "threads": threads,
+            "dst": {"pt": dst_pt, "w": dw, "h": dh, "sent": sent}, "log": list(log)}
+    if dst_lay:
+        case["dst"]["lay"] = dst_lay
+    if dst_c:
+        case["dst"]["c"] = dst_c
+    if not op.endswith("_inplace"):
+        case["src"] = {"pt": src_pt or dst_pt, "w": dw if sw is None else sw, "h": dh if sh is None else sh,
+                       "c": src_c or {"g": "rand", "seed": 1}}
+        if src_lay:
+            case["src"]["lay"] = src_lay
+    if mapper:
+        case["mapper"] = mapper
+        case["dir"] = direction or "f"
+    spec = {"args": dict(DUMMY_ARGS), "rz": -1, "chk": list(chk), "nc": PT[dst_pt]["nc"], "pt": dst_pt, "cpu": cpu,
+            "flt": "-", "op": op}
+    if g is not None:
+        spec["g"] = g
+    if echo:
+        spec.update(echo)
+    case["_spec"] = spec
+    return case
+
+
 def ctl_case(rz, what, to=None):
     c = {"op": "rz_ctl", "rz": rz, "what": what, "_spec": {"ctl": 1, "rz": rz, "what": what}}
     if to is not None:
@@ -186,6 +218,10 @@ def describe(case):
     if sp.get("ctl"):
         return {"ctl": sp["what"], "rz": sp["rz"]}
     a = sp["args"]
+    if "op" in sp:
+        return {"op": sp["op"], "pt": sp["pt"], "dst": [case["dst"]["w"], case["dst"]["h"]], "cpu": sp["cpu"], "api": case.get("api"),
+                "threads": case.get("threads"), "src_lay": case.get("src", {}).get("lay"), "dst_lay": case["dst"].get("lay"),
+                "src_pt": case.get("src", {}).get("pt")}
     return {"pt": sp["pt"], "src": [a["sw"], a["sh"]], "dst": [a["dw"], a["dh"]], "box": a["box"], "Q": a["Q"],
             "alg": a["alg"], "filter": sp["flt"], "m": a["m"], "alpha": a["useAlpha"], "cpu": sp["cpu"], "rz": sp["rz"],
             "api": case.get("api"), "threads": case.get("threads"),
